@@ -1,4 +1,5 @@
 """Claim tables for MANIFEST.json. Keep in step with harness/ and DESIGN.md."""
+FORK = " (finite outcome space enumerated through solver-decided forks; counterexamples replayed through the real CLI on real files)"
 SYM = "solver-based: bounded symbolic execution of the real functions (symlite proxies over z3; per-path VC discharged by z3; CEX replayed)"
 
 CLAIMS = {
@@ -86,6 +87,20 @@ CLAIMS = {
                      "applied edits are pairwise disjoint, a conflicting edit is absent entirely; for all positions/lengths/texts "
                      "within <=3 patches x <=2 variants (quick) / <=4 patches (thorough).",
                 note="Patch stream contract as in C10. The legacy un-merged route (LintedFile.source_patches is None) is outside the claim."),
+    "C18": dict(design_ref="§3 C18", technique=SYM + FORK,
+                text="Real cli._paths_fix/_stdin_fix/_handle_unparsable, Linter.lint_paths apply gate, LintedDir.add/discard_fixes..., "
+                     "api.simple.fix over real LintedFile objects holding every subset of {TMP, PRS, fixable lint, unfixable lint} "
+                     "violations x ignore x warning flags x fix_even_unparsable (1 file; 2 files with PRS/fixable): a file with a "
+                     "templating/parsing error - suppressed or not - is never written / stdout == stdin / API returns the input unless "
+                     "fix_even_unparsable. lint_fix_parsed loop-limit: when every loop up to runaway_limit (1..3) changes the file the "
+                     "original tree is returned and every initial violation is unfixable.",
+                note="Runner, persist_tree/fix_string and apply_fixes are recording stubs; a counterexample is replayed with `sqlfluff fix` "
+                     "on a real file built from the kind/flag vector (LT01, AM04, a parse error, an undefined jinja variable)."),
+    "C19": dict(design_ref="§3 C19", technique=SYM + FORK,
+                text="Differential over the same LintedFile: exit code and 'modified?' of cli._paths_fix vs _stdin_fix vs api.simple.fix, "
+                     "and records/stats of lint_paths vs the stdin/API assembly, for every kind/flag subset. Known disagreements F21, "
+                     "F23, F24 (each confirmed with the real CLI by path vs via stdin) are excluded by pattern.",
+                note="Narrow: that the three routes compute the same LintedFile (config discovery, stdin filename, encoding) is I/O and outside."),
     "C20": dict(design_ref="§3 C20", technique=SYM,
                 text="Real IgnoreMask.ignore_masked_violations / _should_ignore_violation_line_range / generate_warnings_for_unused over "
                      "<=2 directives x <=2 violations (thorough 3x2, 2x3) with UNBOUNDED symbolic line numbers, every action (plain/"
@@ -101,6 +116,13 @@ CLAIMS = {
                      "(union of matched deny) under precedence code > name > group > alias. Independence: lint_fix_parsed(fix=False) hands "
                      "every enabled rule the identical tree and reports the concatenation of their violations for all 8 subsets.",
                 note="That a crawl does not mutate the tree is assumed, not checked; comma-separated value splitting is outside."),
+    "C22": dict(design_ref="§3 C22", technique=SYM + FORK,
+                text="lint: exit 1 iff some violation is neither suppressed nor a warning (real LintedDir.add + LintingResult.stats). "
+                     "fix by path and via stdin: exit 1 iff an unsuppressed non-warning violation remains unfixable (incl. fixes discarded "
+                     "because of a templating/parsing error) or an unsuppressed templating/parsing error blocks fixing; for every "
+                     "kind/flag subset x fix_even_unparsable.",
+                note="With --FIX-EVEN-UNPARSABLE and a live TMP/PRS error the statement does not determine the code (accepted either way). "
+                     "F20 fixed; F21 (stdin) known. Exit 2 for usage/config errors is click's and outside."),
     "C23": dict(design_ref="§3 C23", technique=SYM,
                 text="Bounded model checking of the real position kernel (newline scan, bisect table, source_position_dict_from_slice, "
                      "PositionMarker, SQLBaseError/SQLLintError/SQLParseError.to_dict, LintFix.to_dict incl. all edit types and the "
@@ -126,6 +148,6 @@ NOT_APPLICABLE = {
     "C16": "oracle is SQLite executing the query before/after; no solver model of SQL semantics is within reach",
     "C17": "fixpoint of the whole rule set over arbitrary SQL; not encodable",
 }
-for _p in ["C04", "C05", "C06", "C15", "C18", "C19", "C22",
+for _p in ["C04", "C05", "C06", "C15", 
            "C24", "C25", "C26", "C27", "C28", "C32", "C34"]:
     NOT_APPLICABLE.setdefault(_p, "check not built yet (planned, see DESIGN.md §3); not claimed until its harness is committed")
